@@ -299,10 +299,23 @@ class Evaluator(object):
         return env
 
     def stmt(self, st, env):
+        if isinstance(st, ast.Assign) and len(st.targets) == 1 and isinstance(st.targets[0], ast.Name) and isinstance(st.value, ast.Attribute) and isinstance(st.value.value, ast.Name) and st.value.attr in BOUND_METHOD_NAMES and st.value.value.id in env and not _is_module_term(env[st.value.value.id]) and st.value.value.id != st.targets[0].id:
+            # get = G.get / add = xs.append: a bound method of a local container is bound to the *object*; calls through
+            # the alias are calls of the method on the container as it is then (and mutate it like the method does)
+            env[st.targets[0].id] = tm.mk("boundmeth", st.value.value.id, st.value.attr)
+            self.__dict__.setdefault("_bound_aliases", {})[st.targets[0].id] = (st.value.value.id, st.value.attr)
+            return env
         if isinstance(st, ast.Assign):
             v = self.ev(st.value, env)
             for tg in st.targets:
                 self.assign(tg, v, env, st)
+                if isinstance(tg, ast.Name):
+                    views = self.__dict__.setdefault("_views", {})
+                    views.pop(tg.id, None)
+                    sv = st.value
+                    if isinstance(sv, ast.Subscript) and isinstance(sv.value, ast.Name) and isinstance(sv.slice, ast.Slice) and sv.value.id in env and sv.value.id != tg.id and _is_local_buffer(env[sv.value.id]):
+                        # w = buf[a:b] of a local buffer is a view: stores through w are stores into buf
+                        views[tg.id] = (sv.value.id, self.ev_index(sv.slice, env))
             return env
         if isinstance(st, ast.AnnAssign):
             if st.value is not None:
@@ -546,6 +559,10 @@ class Evaluator(object):
                             names.add(k.value.id)
                 if isinstance(n, ast.Expr) and isinstance(n.value, ast.Call):
                     cal = n.value
+                    if isinstance(cal.func, ast.Name) and cal.func.id in getattr(self, "_bound_aliases", {}):
+                        b_ = self._bound_aliases[cal.func.id]
+                        if b_[1] in MUTATOR_METHODS:
+                            names.add(b_[0])  # add = xs.append; add(v) inside the loop writes xs
                     if isinstance(cal.func, ast.Attribute) and cal.func.attr in MUTATOR_METHODS:
                         r = _root_name(cal.func.value)
                         if r:
@@ -964,6 +981,7 @@ class Evaluator(object):
                 key = idx if isinstance(tg.value, ast.Name) else tm.mk("at", cont, idx)
                 env[root] = tm.upd(env[root], "setitem", key, v)
                 ms.d["new"] = env[root]
+                self._store_through_view(root, idx, v, env)
             return
         if isinstance(tg, ast.Attribute):
             root = _root_name(tg)
@@ -976,6 +994,14 @@ class Evaluator(object):
             self.assign(tg.value, tm.unk("starred"), env, node)
             return
         raise AnalysisError("SYMEVAL", "unsupported assignment target at %s" % self.func.loc(node))
+
+    def _store_through_view(self, name, idx, val, env):
+        """name[idx] = val where name is a slice view of a local buffer: the buffer receives the store too (at the
+        position `idx` *within* the slice - kept as the pair, not composed)"""
+        v = getattr(self, "_views", {}).get(name)
+        if v is None or v[0] not in env:
+            return
+        env[v[0]] = tm.upd(env[v[0]], "setitem", tm.mk("via", v[1], idx), val)
 
     def augassign(self, st, env):
         op = BINOPS[type(st.op)]
@@ -1005,6 +1031,7 @@ class Evaluator(object):
             if root is not None and root in env:
                 key = idx if isinstance(tg.value, ast.Name) else tm.mk("at", cont, idx)
                 env[root] = tm.upd(env[root], "setitem", key, new)
+                self._store_through_view(root, idx, new, env)
             return
         if isinstance(tg, ast.Attribute):
             root = _root_name(tg)
@@ -1018,7 +1045,7 @@ class Evaluator(object):
         raise AnalysisError("SYMEVAL", "unsupported augmented target at %s" % self.func.loc(st))
 
     def expr_stmt(self, st, env):
-        v = st.value
+        v = self._debound(st.value, env)
         if isinstance(v, ast.Call):
             res = self.ev(v, env)
             # statement-level effects on local names
@@ -1062,7 +1089,11 @@ class Evaluator(object):
                 if outnode is not None:
                     root = _root_name(outnode)
                     if root is not None and root in env:
-                        env[root] = tm.upd(env[root], "out", tm.none(), res)
+                        cur = env[root]
+                        if cur is res and isinstance(outnode, ast.Name):
+                            pass  # f(x, .., out=x): the call expression has already bound x to the value of f(x, ..)
+                        else:
+                            env[root] = tm.upd(cur, "out", tm.none(), res)
             return
         self.ev(v, env)
 
@@ -1432,7 +1463,24 @@ class Evaluator(object):
     def ev_DictComp(self, node, env):
         return self._comp("dict", node, [node.key, node.value], env)
 
+    def _debound(self, node, env):
+        """f(args) where f is an alias of `obj.method` taken earlier: the call obj.method(args)"""
+        if isinstance(node, ast.Call) and isinstance(node.func, ast.Name) and node.func.id in env and env[node.func.id].op == "boundmeth":
+            cache = self.__dict__.setdefault("_debound_cache", {})
+            new = cache.get(id(node))
+            if new is None:
+                b = env[node.func.id]
+                if b.a[0] not in env:
+                    return node
+                func = ast.copy_location(ast.Attribute(value=ast.copy_location(ast.Name(id=b.a[0], ctx=ast.Load()), node.func), attr=b.a[1], ctx=ast.Load()), node.func)
+                new = ast.copy_location(ast.Call(func=func, args=node.args, keywords=node.keywords), node)
+                cache[id(node)] = new
+                cache[id(new)] = new
+            return new
+        return node
+
     def ev_Call(self, node, env):
+        node = self._debound(node, env)
         fn = self.ev(node.func, env) if not isinstance(node.func, ast.Attribute) else None
         base = None
         if fn is None:
@@ -1891,6 +1939,19 @@ class Evaluator(object):
         return tm.call(fn, args, kw)
 
 
+def _is_local_buffer(t):
+    """a freshly allocated array (np.zeros / np.empty / np.ones / np.full ...), possibly with stores already made"""
+    for _ in range(60):
+        if t.op == "upd":
+            t = t.a[0]
+        elif t.op in ("loop", "loopvar"):
+            t = t.a[2]
+        else:
+            break
+    return t.op == "call" and tm.callee_name(t.a[0]) in ("np.zeros", "np.empty", "np.ones", "np.full", "np.zeros_like", "np.empty_like", "np.ones_like", "np.full_like")
+
+
+BOUND_METHOD_NAMES = {"split", "match", "search", "fullmatch", "get", "append", "extend", "add", "setdefault", "pop", "insert", "update", "items", "keys", "values", "discard", "remove", "index", "count"}
 _ARRAY_ATTRS = {"shape", "size", "ndim", "T", "dtype", "real", "imag", "flat", "data", "count", "index", "start", "stop", "step", "args", "message"}
 
 
